@@ -205,7 +205,35 @@ def r08_6(prog, rep):
     rep.check(okn, "R08.6", g.qualname, g.loc, "isnonetype accepts both None and NoneType", "isnonetype no longer recognises both spellings of the None member", detail="nonetype")
 
 
+def r08_7(prog, rep, rule="R08.7"):
+    """The None member accepts the None object only, in both directions (otherwise it is a catch-all that lets values
+    every real member rejected through, raw)."""
+    for d in ("marshal", "unmarshal"):
+        rows = C.handlers(prog, d)
+        nr = [r for r in rows if r.pred_name == "isnonetype" and r.routine]
+        api = C.DIRS[d][0]
+        if not nr:
+            rep.undecided(rule, f"{api}._HANDLERS", rows[0].loc, "no None row", detail=d)
+            continue
+        c = nr[0].routine
+        f = C.call_of(prog, c)
+        ps = P.paths_of(prog, f)
+        val = ("param", "val")
+        subjects = (val, ("call", ("ref", f"{C.SERDES}.decode"), (val,), ()))
+        ok = bool(ps)
+        for p in ps:
+            none_known = any(g[0] == "cmp" and g[3] == ("const", None) and g[2] in subjects and ((g[1] in ("is", "==")) == pol) for g, pol in p.guards())
+            if p.exit[0] == "return":
+                if not none_known:
+                    ok = False
+            elif p.exit[0] == "raise":
+                if not T.is_call_to(p.exit[1], "builtins.ValueError", "builtins.TypeError"):
+                    ok = False
+        rep.check(ok, rule, c.qualname, f.loc, f"{d}: the None member returns only when the input is None and raises otherwise", f"{d}: the routine serving NoneType returns for inputs that are not None: in a union it is a catch-all, so a value every real member rejected is passed through raw instead of raising (Optional[Literal[1, 2]] lets 3 through)", detail=d)
+
+
 def run(prog: Program, rep: Report, tier: str):
+    rep.rule("R08.7", "the None member accepts only None, in both directions", floor=2)
     rep.rule("R08.6", "optional detection examines every member", floor=2)
     rep.rule("R08.1", "member stack keeps declared order (identity / stable none-first)", floor=2)
     rep.rule("R08.2", "suppress tuple covers every member family's may-raise set", floor=30)
@@ -227,6 +255,7 @@ def run(prog: Program, rep: Report, tier: str):
         rep.check(len(ss) == 1, "R08.4", c.qualname, f.loc, "the member call runs under one handler (contextlib.suppress or try/except) whose escape continues with the next member", "the member call is not wrapped by a handler that lets the loop continue", detail="suppress-wrap")
         sups[d] = set(ss[0]) if ss else set()
     r08_6(prog, rep)
+    r08_7(prog, rep)
     if len(sups) == 2:
         rep.check(sups["marshal"] == sups["unmarshal"], "R08.5", "union routines", "", f"both suppress {sorted(x.rsplit('.', 1)[-1] for x in sups['marshal'])}", f"marshal suppresses {sorted(sups['marshal'])}, unmarshal {sorted(sups['unmarshal'])}")
         r08_2(prog, rep, sups["unmarshal"])
